@@ -23,7 +23,7 @@ try:
             print(ast.unparse(db.func(q)))
         except Exception as e:
             print("??", q, e)
-            print([k for k in db.functions if q.split(".")[0] + "." in k and q.split(".")[-1].strip("_") in k][:20])
+            pass
         print()
 finally:
     if wt:
